@@ -70,7 +70,8 @@ contract('PybindWrapper.wrap_methods',
          assumed=True, note='monitored at run time on real calls (bounded), not proved: replace() chains on the print path',
          params={'methods': 'list[ref:Method]|list[ref:StaticMethod]', 'cpp_class': 'str', 'prefix': 'str', 'suffix': 'str'}, returns='str',
          requires=["'{' not in prefix and '}' not in prefix", "self.xml_source == ''"],
-         modifies=['list(self._serializing_classes)', 'dict(self.xml_parser._memory)'],
+         # the export list grows only when serialization is on; the documentation memory is touched only with an XML source
+         modifies=['list(self._serializing_classes) if self.use_boost_serialization', 'dict(self.xml_parser._memory)'],
          ensures=['result == methods_fold(self, methods, cpp_class, prefix, suffix, len(methods))'],
          loops={0: {'inv': ['res == methods_fold(self, methods, cpp_class, prefix, suffix, _i)'],
                     'modifies': ['list(self._serializing_classes)', 'dict(self.xml_parser._memory)']}})
@@ -119,7 +120,7 @@ contract('PybindWrapper.wrap_enums', params={'enums': 'list[ref:Enum]', 'instant
 contract('PybindWrapper.wrap_instantiated_declaration', params={'instantiated_decl': 'ref:InstantiatedDeclaration'}, returns='str',
          modifies=['alloc'], result_is='old(declaration_binding(self, instantiated_decl))')
 contract('PybindWrapper.wrap_instantiated_class', params={'instantiated_class': 'ref:InstantiatedClass'}, returns='str',
-         requires=["self.xml_source == ''"],
+         requires=["self.xml_source == ''", 'not self.use_boost_serialization'],
          modifies=['alloc', 'list(self._serializing_classes)', 'dict(self.xml_parser._memory)'],
          ensures=['result == old(class_binding(self, instantiated_class))'], assumed=True,
          note='written, not proved: the member folds are specification functions over the list heap, and wrap_methods modifies a '
